@@ -101,7 +101,8 @@ struct Line
 };
 
 // ---------------------------------------------------------------- strata
-// rotation-angle strata; `kind`: 0 = any magnitude (exp, dr_exp), 1 = below pi (log, inverses)
+// rotation-angle strata; `kind`: 0 = any magnitude (exp, dr_exp), 1 = at most pi-1.1e-3 (inverse Jacobians),
+// 2 = below pi but arbitrarily close (log, log∘exp, rminus)
 inline const char * angle_stratum_name(int k)
 {
   static const char * n[] = {"zero", "tiny", "switch", "above_switch", "small", "generic", "near_pi", "beyond_pi", "large"};
@@ -123,10 +124,10 @@ inline double gen_angle(Rng & r, int stratum, int kind, double sw /* sqrt(eps2) 
   case 5: return r.uni(0.3, 3.0);
   case 6: {
     double e = r.logu(1e-9, 1e-2);
-    return kind == 1 ? M_PI - std::max(e, 1.1e-3) : M_PI - e;
+    return kind == 1 ? M_PI - std::max(e, 1.1e-3) : M_PI - e;   // kind 0 and 2: arbitrarily close to pi from below
   }
-  case 7: return kind == 1 ? r.uni(2.0, M_PI - 1.1e-3) : M_PI + r.logu(1e-9, 1.0);
-  default: return kind == 1 ? r.uni(0.5, 3.0) : r.uni(M_PI, 50.0);
+  case 7: return kind == 1 ? r.uni(2.0, M_PI - 1.1e-3) : (kind == 2 ? r.uni(2.0, M_PI - 1e-9) : M_PI + r.logu(1e-9, 1.0));
+  default: return kind == 1 || kind == 2 ? r.uni(0.5, 3.0) : r.uni(M_PI, 50.0);
   }
 }
 
@@ -150,11 +151,12 @@ Eigen::Matrix<S, 3, 1> gen_dir3(Rng & r)
 
 inline double gen_trans(Rng & r, int stratum)
 {
-  switch (stratum % 5) {
+  switch (stratum % 6) {
   case 0: return 0.0;
   case 1: return r.uni(-1, 1);
   case 2: return r.uni(-10, 10);
   case 3: return r.sign() * r.logu(1e-3, 1e3);
+  case 4: return r.sign() * r.logu(1e-10, 1e-3);  // tiny but non-zero (all coordinates of one vector share the stratum)
   default: return r.uni(-1e3, 1e3);
   }
 }
